@@ -121,7 +121,6 @@ EXPORT int swprintf_s(wchar_t *restrict dest, rsize_t dmax,
 #endif
 {
     va_list ap, ap2;
-    wchar_t *p;
     int ret = -1;
     const size_t destsz = dmax * sizeof(wchar_t);
 #if !(defined(SAFECLIB_HAVE_C99) && !defined(TEST_MSVCRT))
@@ -167,27 +166,11 @@ EXPORT int swprintf_s(wchar_t *restrict dest, rsize_t dmax,
         return 0;
     }*/
 
-#if defined(HAVE_WCSSTR) || !defined(SAFECLIB_DISABLE_EXTENSIONS)
-    if (unlikely((p = wcsstr((wchar_t *)fmt, L"%n")))) {
-        if ((p - fmt == 0) || *(p - 1) != L'%') {
-            invoke_safe_str_constraint_handler("swprintf_s: illegal %n",
-                                               (void *)dest, EINVAL);
-            return -(EINVAL);
-        }
+    if (unlikely(safec_wfmt_has_n(fmt))) {
+        invoke_safe_str_constraint_handler("swprintf_s: illegal %n",
+                                           (void *)dest, EINVAL);
+        return -(EINVAL);
     }
-#elif defined(HAVE_WCSCHR)
-    if (unlikely((p = wcschr(fmt, flen, L'n')))) {
-        /* at the beginning or if inside, not %%n */
-        if (((p - fmt >= 1) && *(p - 1) == L'%') &&
-            ((p - fmt == 1) || *(p - 2) != L'%')) {
-            invoke_safe_str_constraint_handler("swprintf_s: illegal %n",
-                                               (void *)dest, EINVAL);
-            return -(EINVAL);
-        }
-    }
-#else
-#error need wcsstr or wcschr
-#endif
 
     errno = 0;
     va_start(ap, fmt);
